@@ -72,15 +72,22 @@ class _Tagged:
         self.fp_ = 0 if self.symbolic_ else int(round(sum((i % 5 + 1) * abs(float(v)) for i, v in enumerate(flat)) * 4)) % 13
         return self
 
+    # replay only: (numeric data standing for the symbolic dataset A, the solver model's values of A's table variables)
+    replay_A = None
+
     def _table_eval(self, cuts, tag):
         if self.symbolic_:
             return super()._table_eval(cuts, tag)
         cuts = np.asarray(cuts)
         out = np.empty((cuts.shape[0], self.p), dtype=float)
+        ra = _Tagged.replay_A
+        is_A = ra is not None and np.shape(self.seen_) == ra[0].shape and np.array_equal(np.asarray(self.seen_, dtype=float), ra[0])
         for i, c in enumerate(cuts):
             for j in range(self.p):
                 h = sum((k + 2) * 7 * int(v) for k, v in enumerate(c)) + 3 * j + 5 * self.n_ + 11 * self.fp_
                 out[i, j] = (h % 23) / 4.0
+                if is_A:
+                    out[i, j] = ra[1].get(f"{tag}_{'_'.join(str(int(v)) for v in c)}_{j}", out[i, j])
         return out
 
 
@@ -605,6 +612,8 @@ def replay(cx):
             "B2": pd.DataFrame(rngB.integers(-4, 5, size=(7, 3 - p if (det != "StatThresholdAnomaliser" and not info.get("wrap")) else 1)).astype(float))}
     data["C"] = pd.DataFrame(np.random.default_rng(6).integers(-4, 5, size=(n, p)).astype(float))
     bad = []
+    # dataset A answers with the solver model's table values (so the replay walks the path the solver found)
+    _Tagged.replay_A = (Af.values.astype(float), {k: v for k, v in env.items()})
 
     def nobs(o):
         return str(o)
@@ -703,4 +712,5 @@ def replay(cx):
             bad.append(f"{type(ex).__name__}: {ex}")
         finally:
             c11._val_stat = old
+            _Tagged.replay_A = None
     return dict(reproduced=bool(bad), key=f"{det}|{hname}|{ob}|{'cost' if info.get('wrap') else 'scorer'}", what=f"{det} (n={n}, p={p}): " + "; ".join(bad)[:700])
